@@ -61,6 +61,15 @@ def step (toks : List String) : Option (String × String) :=
       let okPaced := minW > maxW || pauses.all (fun d => minW ≤ d && d ≤ maxW)
       let okBody := recv.all (· != .truncated)
       some (m, if okAttempts && okPaced && okBody then m else "SPEC-VIOLATED")
+  | "retryafter" :: rest => do
+      -- ExponentialBackoff (jitter 0) given a response: status, Retry-After text, and the
+      -- exponential value the harness computed for this attempt
+      let status ← (← kv rest "status").toNat?
+      let raTxt ← kv rest "ra"
+      let expo ← (← kv rest "expo").toInt?
+      let ra : Option Int := if raTxt == "none" then none else raTxt.toInt?
+      let a := toString (retryAfterPause status ra expo)
+      some (a, a)
   | "backoff" :: rest => do
       let ns ← kv rest "nsign"
       let guarded := Gen.backoffGuardsJitter
